@@ -105,7 +105,7 @@ func flowsToSink(p *Prog, fn *ssa.Function, src ssa.Value) string {
 
 // C09 — determinism.
 func checkC09(p *Prog, r *Report) {
-	r.Explain = "Decided statically, over the hand-written module functions reachable (definite edges) from the consensus entry points (message handlers, ValidateBasic/GetSigners, Begin/EndBlock, InitGenesis, upgrade handlers): D1 no value produced by a non-deterministic source (wall clock, random numbers, environment, host, scheduler, channel receives, float arithmetic, %p formatting) flows into a consensus-visible sink (store write, event, response, returned error, branch condition, call into state-changing code); values that only reach loggers or telemetry are ignored; no goroutine is started and no select is used in scope (control: the same matcher finds time.Now and crypto/rand in the key store, which is outside the scope); D2 every range over a Go map in scope has an order-insensitive body: keyed store writes derived from the iteration key, validation with early error return, or insertion into another map — no append to an outer slice (unless sorted afterwards), no event emission, no order-dependent accumulation; D3 the timestamps that handlers store (writer, record, token creation) are ctx.BlockTime(); D4 sign bytes are sorted JSON (decided in C14-D1)."
+	r.Explain = "Decided statically, over the hand-written module functions reachable (definite edges) from the consensus entry points (message handlers, ValidateBasic/GetSigners, Begin/EndBlock, InitGenesis, upgrade handlers): D1 no value produced by a non-deterministic source (wall clock, random numbers, environment, host, scheduler, channel receives, float arithmetic, %p formatting) flows into a consensus-visible sink (store write, event, response, returned error, branch condition, call into state-changing code); values that only reach loggers or telemetry are ignored; no goroutine is started and no select is used in scope (control: the same matcher finds time.Now and crypto/rand in the key store, which is outside the scope); D2 every range over a Go map in scope has an order-insensitive body: keyed store writes derived from the iteration key, validation with early error return, or insertion into another map — no append to an outer slice (unless sorted afterwards), no event emission, no order-dependent accumulation; D3 the timestamps that handlers store (writer, record, token creation) are ctx.BlockTime(); D4 sign bytes are sorted JSON (decided in C14-D1). D1b renderings (Format/String/calendar accessors/%v) of a Time in the node's local zone — time.Unix*, Local(), In(≠UTC), Date(…, ≠UTC) without a following UTC() — are sources too (fixture control on every run); D5 no package variable or long-lived struct field is both written and read by block-processing code (process memory carries this node's own history into DeliverTx)."
 	r.NotDec = []string{"determinism of the SDK, IAVL, gogoproto and the Go standard library", "CheckTx/simulate state separation (baseapp)", "app-hash equality itself"}
 	r.Trusted = []string{"cosmos-sdk v0.47.12 baseapp", "gogoproto deterministic marshalling"}
 	kp := func(rule, rest string) string { return rule + ":C09:" + rest }
